@@ -767,16 +767,58 @@ func main() {
 		funcLevel[f] = true
 	}
 	os.MkdirAll(*out, 0o755)
-	for _, rel := range flag.Args() {
+	// arguments are files (instrumented as asked; an unsupported construct there is fatal: nothing is
+	// explored) or directories: every other non-test .go file of such a directory is instrumented too, at
+	// function-entry granularity, so that goroutines, channels, locks and package-level state introduced in
+	// NEW files of a package are under the scheduler as well; a file found that way which cannot be
+	// instrumented is left as it is (with a note)
+	var rels []string
+	extra := map[string]bool{}
+	listed := map[string]bool{}
+	for _, a := range flag.Args() {
+		if st, err := os.Stat(filepath.Join(*repo, a)); err == nil && !st.IsDir() {
+			listed[filepath.Clean(a)] = true
+		}
+	}
+	for _, a := range flag.Args() {
+		st, err := os.Stat(filepath.Join(*repo, a))
+		if err != nil {
+			fmt.Fprintln(os.Stderr, "instrument:", err)
+			os.Exit(3)
+		}
+		if !st.IsDir() {
+			rels = append(rels, filepath.Clean(a))
+			continue
+		}
+		ents, _ := os.ReadDir(filepath.Join(*repo, a))
+		for _, e := range ents {
+			n := e.Name()
+			rel := filepath.Join(a, n)
+			if e.IsDir() || !strings.HasSuffix(n, ".go") || strings.HasSuffix(n, "_test.go") || listed[rel] || extra[rel] {
+				continue
+			}
+			if head, err := os.ReadFile(filepath.Join(*repo, rel)); err == nil && bytes.Contains(head[:min(len(head), 400)], []byte("//go:build")) {
+				continue // build-constrained files are left alone
+			}
+			extra[rel] = true
+			funcLevel[rel] = true
+			rels = append(rels, rel)
+		}
+	}
+	for _, rel := range rels {
 		if f, err := parser.ParseFile(token.NewFileSet(), filepath.Join(*repo, rel), nil, parser.SkipObjectResolution); err == nil {
 			collectChanNames(f)
 		}
 	}
 	overlay := map[string]string{}
-	for i, rel := range flag.Args() {
+	for i, rel := range rels {
 		src := filepath.Join(*repo, rel)
 		data, err := instrumentFile(src, rel, strings.HasPrefix(rel, "server/"), funcLevel[rel])
 		if err != nil {
+			if extra[rel] {
+				fmt.Fprintln(os.Stderr, "instrument: note:", rel, "left uninstrumented:", err)
+				continue
+			}
 			fmt.Fprintln(os.Stderr, "instrument:", err)
 			os.Exit(3)
 		}
